@@ -21,6 +21,9 @@ PassedThrough(reached, injected) == reached = injected
 IsPrefix(w, f) == Len(w) <= Len(f) /\ (Len(w) = 0 \/ SubSeq(f, 1, Len(w)) = w)
 \* "as if the failed one had not happened": library-global state right after the failed call is what it was before it
 StateRestored(g, g0) == g = g0
-\* "the next call behaves as if the failed one had not happened" (C11's H for the follow-up call)
+\* ... and so are the objects the caller handed to the failed call (values, nodes, events: an attribute added is a change)
+ArgumentsUntouched(a, a0) == a = a0
+\* "the next call behaves as if the failed one had not happened" (C11's H for the follow-up call; the follow-up may hand in
+\* the very same argument objects again)
 LeftUsable(next, nextFresh, g, g0) == next = nextFresh /\ g = g0
 =============================================================================
